@@ -420,7 +420,7 @@ func genRef(t *rapid.T) RefCase {
 
 var subRandRefs = runlog.Register(&runlog.Sub[RefCase]{
 	Name: "random-references",
-	Rule: "use site `name inside a reference` with the key generator of random-literals (random Go integer literals, 1/3 damaged, single segment or inside a path of 1-5 segments, PathSep '.', none or unusual, MaxIdx not given / small / hugging the value / constants, EnableNumKeys not given/false/true, write site map/struct/set), EscapePath given in half of the cases, in 1/6 the whole key and in 1/6 the spelling alone enclosed in brackets. Same configuration (all five reference forms for the key itself, the decimal spelling of its number, a name nobody set) and same oracle as `references`: every form yields what the getter with the same name and options finds. Distinct: hash of the case.",
+	Rule: "use site `name inside a reference` with the key generator of random-literals (random Go integer literals, 1/3 damaged, single segment or inside a path of 1-5 segments, PathSep '.', none or unusual, MaxIdx not given / small / hugging the value / constants, EnableNumKeys not given/false/true, write site map/struct/set), EscapePath given in half of the cases, in 1/6 the whole key and in 1/6 the spelling alone enclosed in brackets (on top of the 1/8 bracketed keys of that generator). Same configuration (all five reference forms for the key itself, the decimal spelling of its number, a name nobody set) and same oracle as `references`: every form yields what the getter with the same name and options finds. Distinct: hash of the case.",
 	Gen:  genRef,
 	Run:  runRef,
 })
